@@ -1,9 +1,73 @@
 (* C16 -- the compliance gate accepts exactly the engines that follow the
-   rules.  Property theorems only; proofs live in Proofs/GateProofs.v. *)
+   rules.  Property theorems only; proofs live in Proofs/GateProofs.v.
+   Model: Model/Gate.v ([gate] = compliant._verify over rule_01..rule_11 as the
+   code is now; [follows] = the eleven rules read off their docstrings). *)
 From DV Require Import Model.Gate Proofs.GateProofs.
 From Coq Require Import List Bool.
 Import ListNotations.
 
-Theorem C16_status : forall r, status r = true <-> r = Some true.
-Proof. exact G_status_true. Qed.
-Print Assumptions C16_status.
+(* C16_sound_complete at full strength is FALSE on the code as it is: rule 3
+   promises that every method raising NotImplementedError is checked, but
+   run() / StateVector.view() / Value.features() are never looked at
+   (open finding abstract-method-unchecked).  Witness: a regress-only package
+   whose regression leaves run() abstract is accepted. *)
+Theorem C16_sound_complete_refuted : exists E, gate E = true /\ ~ follows E.
+Proof. exists GateWitness.E_norun. split; [exact GateWitness.accepted|exact GateWitness.not_follows]. Qed.
+Print Assumptions C16_sound_complete_refuted.
+
+(* strongest statement that holds: the gate accepts exactly the engines that
+   follow the observable part of the rules ([follows] minus the three
+   unchecked overrides), for every engine descriptor -- any number of
+   packages, any subset of the four factory kinds per package.  Missing w.r.t.
+   the full statement: the F03_unobserved clause; side conditions: names
+   unique where the architecture needs them unique ([uniq]; _resolve's
+   index bookkeeping is wrong on duplicates) and no package name a string
+   prefix of another ([prefix_free]; rule_06 uses str.startswith). *)
+Theorem C16_sound_complete_partial : forall E, uniq E -> prefix_free E ->
+  (gate E = true <-> follows_obs E).
+Proof. intros E U PF. split; [apply G_sound|apply G_complete]; assumption. Qed.
+Print Assumptions C16_sound_complete_partial.
+
+(* every engine that breaks a rule the gate can observe -- at any position of
+   any package, in particular every single-rule fault injected into a
+   compliant engine -- is rejected *)
+Theorem C16_single_fault : forall E, uniq E -> prefix_free E ->
+  (exists p, In p E /\ ~ follows_obs_pkg E p) -> gate E = false.
+Proof. exact G_fault_rejected. Qed.
+Print Assumptions C16_single_fault.
+
+(* descriptor-level half of C16_schedulable: under an accepting gate every
+   reference (feedback included, which is what the fix restored for
+   regressions) denotes only value nodes that pl.dag.Construct._build_tree
+   creates, so the _flat[...] lookup of Construct._feedback is total.
+   Termination of _ancestry on acyclic engines and pl.schedule.build are left
+   to the correspondence (accepted acyclic engines are run through the real
+   Construct/build on every run). *)
+Theorem C16_schedulable_partial : forall E, uniq E -> prefix_free E -> gate E = true ->
+  forall p, In p E -> forall k f, fac_of p k = Some f -> forall a, In a (b_algs (f_bot f)) ->
+  forall r, In r (refs_of a) -> forall it feat, In (it, feat) (expand r) ->
+  exists i k' ft, r_fac r = Some (i, k') /\ feat = Some ft /\
+                  flat_has E i k' (r_impl_name r) (i_name it) ft.
+Proof. exact G_lookups_total. Qed.
+Print Assumptions C16_schedulable_partial.
+
+(* the repaired defect stays visible in the model: the pinned _walk (regress
+   branch reading `a.feedback()`) rejects a package that follows every rule *)
+Theorem C16_pinned_walk_defect : exists E,
+  follows E /\ gate E = true /\ gate_pinned E = false.
+Proof.
+  exists GateExamples.E. split; [exact GateWitness.follows_E|].
+  split; [exact GateExamples.now_accepts_regress_only
+         |exact GateExamples.pinned_rejected_regress_only].
+Qed.
+Print Assumptions C16_pinned_walk_defect.
+
+(* non-vacuity: the hypotheses of the theorems above are satisfiable by an
+   engine with a regress-only package, and a faulty engine exists *)
+Example C16_hypotheses_satisfiable :
+  uniq GateExamples.E /\ prefix_free GateExamples.E /\ gate GateExamples.E = true /\
+  follows_obs GateExamples.E.
+Proof.
+  split; [exact GateWitness.uniq_E|]. split; [exact GateWitness.prefix_free_E|].
+  split; [exact GateExamples.now_accepts_regress_only|apply GateWitness.follows_E].
+Qed.
